@@ -30,7 +30,13 @@ Proof. intros A l H. destruct l; [reflexivity|discriminate]. Qed.
 (* ------------------------------------------------------------------ diff <-> revision *)
 (* what cmd_revision returns, as a function of what cmd_diff returns *)
 Definition rev_visible (o : rev_out) : Prop :=
-  o = RevRefused \/ o = RevNeedsTty \/ exists file p, o = RevWrote file p.
+  o = RevRefused \/ o = RevNeedsTty \/ o = RevRefusedVersion \/ o = RevRefusedExists
+  \/ exists file p, o = RevWrote file p.
+
+Ltac rev_leaf :=
+  eexists; split; [reflexivity|]; split;
+  [unfold rev_visible; eauto 10
+  |first [intros _ Hx; discriminate Hx | intros Hx; discriminate Hx]].
 
 Lemma revision_cases : forall P m f env,
   match cmd_diff P with
@@ -48,23 +54,19 @@ Proof.
   destruct (diff_actions baseline models) as [acts|e]; [|reflexivity].
   cbn [p_actions p_version].
   destruct (is_nil acts) eqn:Hnil; [reflexivity|].
-  destruct (refuses acts) eqn:Href.
-  { eexists. split; [reflexivity|]. split; [left; reflexivity|]. intros _ H. discriminate H. }
+  destruct (existsb (fun q => N.leb (next_version plans) (p_version q)) plans); [rev_leaf|].
+  destruct (refuses acts) eqn:Href; [rev_leaf|].
   set (fv := parse_fill_with_args f).
   set (a0 := map (apply_fill fv) acts).
   destruct (collect_fills a0 baseline) as [|mi mr] eqn:Hmiss.
-  - (* nothing to ask for AddColumn / ModifyColumnNullable *)
-    destruct (find_missing_enum_fill_with (mkPlan "" None None 0 a0) baseline) as [|ei er] eqn:Hme.
-    + eexists. split; [reflexivity|]. split; [right; right; eauto|]. intros _ H. discriminate H.
-    + destruct (re_tty env) eqn:Htty.
-      * eexists. split; [reflexivity|]. split; [right; right; eauto|]. intros _ H. discriminate H.
-      * eexists. split; [reflexivity|]. split; [right; left; reflexivity|]. intros H. discriminate H.
-  - destruct (re_tty env) eqn:Htty.
-    + set (a1 := map (apply_fill (fv ++ mi :: mr)) a0).
-      destruct (find_missing_enum_fill_with (mkPlan "" None None 0 a1) baseline) as [|ei er] eqn:Hme.
-      * eexists. split; [reflexivity|]. split; [right; right; eauto|]. intros _ H. discriminate H.
-      * eexists. split; [reflexivity|]. split; [right; right; eauto|]. intros _ H. discriminate H.
-    + eexists. split; [reflexivity|]. split; [right; left; reflexivity|]. intros H. discriminate H.
+  - destruct (find_missing_enum_fill_with (mkPlan "" None None 0 a0) baseline) as [|ei er] eqn:Hme.
+    + match goal with |- context [mem_str ?n ?l] => destruct (mem_str n l) end; rev_leaf.
+    + destruct (re_tty env) eqn:Htty; [|rev_leaf].
+      match goal with |- context [mem_str ?n ?l] => destruct (mem_str n l) end; rev_leaf.
+  - destruct (re_tty env) eqn:Htty; [|rev_leaf].
+    set (a1 := map (apply_fill (fv ++ mi :: mr)) a0).
+    destruct (find_missing_enum_fill_with (mkPlan "" None None 0 a1) baseline) as [|ei er] eqn:Hme;
+      match goal with |- context [mem_str ?n ?l] => destruct (mem_str n l) end; rev_leaf.
 Qed.
 
 Theorem diff_iff_revision : forall P m f env,
@@ -80,7 +82,7 @@ Proof.
     repeat split.
     + intros [a Ha]. discriminate Ha.
     + intros [o [Ho Hv]]. rewrite H in Ho. inversion Ho; subst o.
-      destruct Hv as [Hv|[Hv|[x [y Hv]]]]; discriminate Hv.
+      destruct Hv as [Hv|[Hv|[Hv|[Hv|[x [y Hv]]]]]]; discriminate Hv.
     + intros _. exact H.
     + intros He. discriminate He.
     + intros He. rewrite H in He. discriminate He.
@@ -91,7 +93,7 @@ Proof.
     + intros _. exists acts. reflexivity.
     + intros Hd. discriminate Hd.
     + intros Hr. rewrite Ho in Hr. inversion Hr; subst o.
-      destruct Hv as [Hv|[Hv|[x [y Hv]]]]; discriminate Hv.
+      destruct Hv as [Hv|[Hv|[Hv|[Hv|[x [y Hv]]]]]]; discriminate Hv.
     + intros He. discriminate He.
     + intros He. rewrite Ho in He. discriminate He.
     + intros Htty Hn. rewrite Ho in Hn. inversion Hn; subst o. exact (Ht Htty eq_refl).
